@@ -5,7 +5,7 @@ F = "harness/C15_console.c"
 D = ["-D__NO_CTYPE"]
 STUBS_RUN = ["do_tokenize:do_tokenize_contract", "find_command:find_command_contract", "do_prompt:do_prompt_contract"]
 STUBS_EVAL = ["do_tokenize:do_tokenize_contract", "find_command:find_command_contract"]
-NAMES = "command names of 1..4 characters (any bytes); table size is the real constant 32, every fill 0..31 enumerated"
+NAMES = "command names of 1..4 characters (any bytes); table size is the real constant 32, every fill 0..31"
 EQ_LEN, TEXT_LEN = 8, 6
 
 
@@ -41,7 +41,7 @@ HS = (
        bounded="lines of at most %d characters over the alphabet {a, b, space, tab, ', \", NUL}, well-formed quoting" % EQ_LEN)] +
     [H("table_init", F, "h_table_init", ["cmd_table (static initialiser)"], defs=D, unwind=34, timeout=120, cover=False)] +
     _both("find_command", "h_find", ["find_command"], solvers=("cadical", "minisat"), timeout=900, bounded=NAMES) +
-    _both("register", "h_register", ["console_register"], solvers=("cadical", "minisat"), timeout=900, bounded=NAMES) +
+    _both("register", "h_register", ["console_register"], unwindset=["strcmp.0:6"], solvers=("cadical", "minisat"), timeout=900, bounded=NAMES) +
     _both("builtin", "h_builtin", ["console_echo", "console_unknown"], timeout=300) +
     _both("putchar", "h_putchar", ["console_putchar"], timeout=300) +
     _both("eval_step", "h_eval_step", ["console_eval"], replace_calls=STUBS_RUN, unwindset=RUNLOOP + ["console_eval.1:9"], timeout=600, cbmc_flags=["--object-bits", "12"],
